@@ -1532,10 +1532,19 @@ _vbi_cache_put_page		(vbi_cache *		ca,
 		subno_mask = 0x000F;
 	}
 
+	/* Replace the version stored under exactly this subno if there
+	   is one. The masked search alone finds the version used last,
+	   then a page received alternately with subcode 0 and a subpage
+	   number accumulated copies under the same subno. */
 	old_cp = page_by_pgno (ca, cn,
 			       cp->pgno,
-			       subno & subno_mask,
-			       subno_mask);
+			       subno,
+			       /* subno_mask */ -1);
+	if (NULL == old_cp)
+		old_cp = page_by_pgno (ca, cn,
+				       cp->pgno,
+				       subno & subno_mask,
+				       subno_mask);
 	if (NULL != old_cp) {
 		if (CACHE_DEBUG) {
 			fputs ("is cached ", stderr);
